@@ -178,7 +178,7 @@ class Runner:
             for pth, s in loops:
                 parent, (attr, idx) = pth[:-1], pth[-1]
                 variants = [("none", target)]
-                if ck.thorough or ck.rng.random() < 0.5:
+                if ck.thorough or ck.rng.random() < 0.35:
                     variants += G.perturbations(target, parent, attr, idx, idx + 1, ck.rng, limit=ck.n(2, 5))
                 for iname in instrs:
                     callee = getattr(mod, iname)
@@ -362,7 +362,6 @@ def run(ck: common.Check):
     ck.log("core deps %.1fs" % (time.time() - t0))
     ck.coq_build("Unify")
     ck.log("unify build %.1fs" % (time.time() - t0))
-    ck.assumptions_from_vo("Unify", "Props_C05")
     try:
         r = Runner(ck)
     except Exception as e:
@@ -385,7 +384,9 @@ def run(ck: common.Check):
             r.inline_probe(c)
         ck.log("witnesses %.1fs" % (time.time() - t0))
         # 2. correspondence of the inline model
-        r.inline_corr(ck.n(300, 1500), ck.n(30, 240))
+        # quick tier: whatever the builds left of the 3-minute budget (they take 10 s .. 100 s depending on what changed)
+        left = lambda: 165 - (time.time() - t0)
+        r.inline_corr(ck.n(300, 1500), ck.n(min(30, max(8, left() * 0.25)), 240))
         ck.log("inline correspondence %.1fs" % (time.time() - t0))
         # 4. search
         for c in CASES.REPO_TESTS:
@@ -393,7 +394,7 @@ def run(ck: common.Check):
         ck.log("repo tests %.1fs" % (time.time() - t0))
         r.x86()
         ck.log("x86 %.1fs" % (time.time() - t0))
-        r.generated(ck.n(200, 1500), ck.n(60, 700))
+        r.generated(ck.n(200, 1500), ck.n(min(60, max(12, left())), 700))
         ck.log("generated %.1fs" % (time.time() - t0))
     finally:
         r.sc.close()
